@@ -15,7 +15,7 @@ from . import build
 _counter = itertools.count()
 
 
-def make_processor(conn, sql_engine):
+def make_processor(conn, sql_engine, lazy_transfers: bool = False):
     import sqlalchemy
 
     from lsst.daf.relation import Processor, iteration, sql
@@ -56,6 +56,15 @@ def make_processor(conn, sql_engine):
             entry = self._facts("transfer", source)
             entry["materialize_as"] = materialize_as
             self.log.append(entry)
+            if (lazy_transfers and materialize_as is None and not isinstance(destination, sql.Engine)
+                    and not isinstance(source.engine, sql.Engine)):
+                # a plain transfer need not persist anything: hand over a lazy payload that
+                # re-evaluates the source on every iteration (only a materialization caches)
+                class LazyRows(iteration.RowIterable):
+                    def __iter__(self_inner):
+                        return iter([dict(r) for r in source.engine.execute(source)])
+
+                return LazyRows()
             try:
                 rows = self.evaluate(source)
             except Exception as exc:  # noqa: BLE001
